@@ -372,3 +372,15 @@ mod test {
         assert_eq!(diff(&c, &d), vec![Felt::zero(); n]);
     }
 }
+
+#[cfg(feature = "verif-hooks")]
+impl Felt {
+    /// verification hook: the stored representative, unchanged
+    pub fn verif_raw(&self) -> u32 {
+        self.0
+    }
+    /// verification hook: wrap a representative without reducing it
+    pub fn verif_from_raw(raw: u32) -> Self {
+        Felt(raw)
+    }
+}
